@@ -25,6 +25,7 @@ type agVector struct {
 	Tr    int      `json:"tr"`
 	N     int      `json:"n"`
 	Calls []agCall `json:"calls"`
+	TL    int      `json:"tl"`
 }
 
 type agEvent struct {
@@ -51,7 +52,33 @@ func agIDIndex(id [stun.TransactionIDSize]byte) int {
 	return k
 }
 
-func agTime(t int) time.Time { return time.Unix(1000000+int64(t), 0) }
+// agTimeline maps the abstract integer time points of the specification to concrete time.Time values.
+// Every timeline is strictly monotone, so "deadline strictly before t" means the same in all of them:
+// 0 = whole seconds, 1 = adjacent nanoseconds, 2 = extreme values (zero Time, centuries apart,
+// around the Unix epoch, beyond the range of UnixNano).
+var agTimeline = 0
+
+func agTime(t int) time.Time {
+	switch agTimeline {
+	case 1:
+		return time.Unix(1700000000, 999999990).Add(time.Duration(t))
+	case 2:
+		switch {
+		case t <= 0:
+			return time.Time{}.Add(time.Duration(t)) // t < 0 does not occur; zero Time for 0
+		case t == 1:
+			return time.Date(1600, 1, 1, 0, 0, 0, 0, time.UTC)
+		case t == 2:
+			return time.Unix(0, -1)
+		case t == 3:
+			return time.Unix(0, 0)
+		default:
+			return time.Date(2300, 1, 1, 0, 0, 0, 0, time.UTC).Add(time.Duration(t - 4))
+		}
+	default:
+		return time.Unix(1000000+int64(t), 0)
+	}
+}
 
 func agResult(err error) string {
 	switch {
@@ -100,7 +127,8 @@ func runAgentVector(tw *traceWriter, v agVector) {
 	}
 	hs := map[int]stun.Handler{1: mk(1), 2: mk(2)}
 	a := stun.NewAgent(hs[1])
-	tw.emit(map[string]interface{}{"k": "new", "tr": v.Tr, "h": 1, "n": v.N})
+	agTimeline = v.TL
+	tw.emit(map[string]interface{}{"k": "new", "tr": v.Tr, "h": 1, "n": v.N, "tl": v.TL})
 	for _, c := range v.Calls {
 		evs = evs[:0]
 		cur = nil
@@ -152,6 +180,9 @@ func TestVerifC13(t *testing.T) {
 			}
 			tr++
 			v.Tr = tr
+			if v.TL < 0 {
+				v.TL = tr % 3
+			}
 			runAgentVector(tw, v)
 		}
 		f.Close()
@@ -162,7 +193,7 @@ func TestVerifC13(t *testing.T) {
 	r := newRand(13)
 	for s := 0; s < nseq; s++ {
 		nid := 2 + r.Intn(49)
-		v := agVector{N: nid}
+		v := agVector{N: nid, TL: s % 3}
 		now := 10
 		for i := 0; i < ncalls; i++ {
 			id := 1 + r.Intn(nid)
